@@ -794,6 +794,11 @@ def std_summary(tb, path, upath, fr, args):
         return ("align_offset", args[0], args[1])
     if path in ("core::ptr::const_ptr::<impl *const T>::is_null", "core::ptr::mut_ptr::<impl *mut T>::is_null"):
         return ("is_null", args[0])
+    if path in ("core::ptr::non_null::NonNull::<T>::as_ref", "core::ptr::non_null::NonNull::<T>::as_mut"):
+        # (&nn).as_ref() = &*nn.as_ptr(); NonNull values are represented by their pointer
+        a = args[0]
+        nn = a[1] if a[0] == "ref" else ("deref", a)
+        return ("ref", ("deref", nn))
     if path == "core::ptr::non_null::NonNull::<T>::new":
         return ("nonnull_new", args[0])
     if path in ("<[T] as core::convert::AsRef<[T]>>::as_ref", "core::clone::impls::<impl core::clone::Clone for &T>::clone"):
